@@ -24,6 +24,9 @@ type flushCase struct {
 	// unrelated request (must be answered at once); "I" flush of an idle tag;
 	// "O" flush of its own tag; "A" flush of an already answered tag.
 	Events []string `json:"events"`
+	// FlushTags: the tags carried by successive Tflush requests (0, NOTAG and
+	// other corner values included); when exhausted, 60, 61, … are used
+	FlushTags []uint16 `json:"flush_tags,omitempty"`
 }
 
 const (
@@ -102,6 +105,22 @@ events:
 	released := held == nil
 	flushTags := map[int]uint16{}
 	nextTag := uint16(tagFlush0)
+	usedTags := map[uint16]bool{tagTarget: true}
+	takeTag := func() uint16 {
+		for len(c.FlushTags) > 0 {
+			t := c.FlushTags[0]
+			c.FlushTags = c.FlushTags[1:]
+			if !usedTags[t] && !(t >= 20 && t < 60) {
+				usedTags[t] = true
+				return t
+			}
+		}
+		for usedTags[nextTag] {
+			nextTag++
+		}
+		usedTags[nextTag] = true
+		return nextTag
+	}
 	pendingFlushOfTarget := map[uint16]bool{} // flush tags whose Rflush must wait for the target
 	seqAtRflush := -1
 	checkEarly := func(when string) *fail {
@@ -133,8 +152,7 @@ events:
 				return failf("unrelated-request-delayed", "an unrelated request on another connection got %v / %v during the flush scenario: %s", r, err, desc())
 			}
 		case ev == "I" || ev == "O" || ev == "A":
-			tag := nextTag
-			nextTag++
+			tag := takeTag()
 			old := uint64(0x7B7B)
 			if ev == "O" {
 				old = uint64(tag)
@@ -164,8 +182,7 @@ events:
 			var k int
 			var of string
 			fmt.Sscanf(ev, "F%d:%s", &k, &of)
-			tag := nextTag
-			nextTag++
+			tag := takeTag()
 			flushTags[k] = tag
 			old := uint16(tagTarget)
 			if of != "t" {
@@ -253,6 +270,9 @@ var flushTargets = []string{"read", "write", "walk3", "rename", "create", "getat
 
 func genFlushCase(rt *rapid.T) flushCase {
 	c := flushCase{Native: rapid.Bool().Draw(rt, "native"), Target: rapid.SampledFrom(flushTargets).Draw(rt, "target"), HoldAt: rapid.IntRange(1, 5).Draw(rt, "hold")}
+	for i := rapid.IntRange(0, 3).Draw(rt, "nft"); i > 0; i-- {
+		c.FlushTags = append(c.FlushTags, rapid.SampledFrom([]uint16{0, 0xffff, 1, 2, 0xfffe, 0x8000, 70}).Draw(rt, "ftag"))
+	}
 	n := rapid.IntRange(1, 8).Draw(rt, "nev")
 	nf := 0
 	rel := false
@@ -313,6 +333,8 @@ func TestC14(t *testing.T) {
 					}
 					for _, perm := range perms {
 						c := flushCase{Native: hold%2 == 0, Target: tg, HoldAt: hold}
+						// corner values for the flushes' own tags, varied deterministically
+						c.FlushTags = [][]uint16{{0, 0xffff}, nil, {0xffff, 0}, {1, 0}}[(hold+len(evs)+len(perm))%4]
 						for _, i := range perm {
 							c.Events = append(c.Events, evs[i])
 						}
